@@ -153,6 +153,7 @@ def run(R, tier, seed, driver_ok):
         A = rng.randn(d, d)
         A = A.dot(A.T)
         A[0, 1] += 1e-3 * np.abs(A).max()
+        A = A * 2.0 ** int(rng.choice([0, 0, -40, -60, 40]))      # the same matrix in other units (exact scaling)
         R.case(('c20-ns', A.tobytes().hex()), True, branch='non-symmetric')
         try:
             _util.components_from_metric(A)
@@ -249,9 +250,13 @@ def run(R, tier, seed, driver_ok):
         pm = rng.permutation(d)
         sing = sing[np.ix_(pm, pm)]
         quads = X[zoo.quads_from(X, y, rng)]
-        for nm, mk in [('ITML', lambda: ITML(prior=sing).fit(pairs, yyd)), ('LSML', lambda: LSML(prior=sing).fit(quads)),
-                       ('SDML', lambda: SDML(prior=sing, balance_param=1e-5).fit(pairs, yyd))]:
-            R.case(('c20-strict', nm, sing.tobytes().hex()[:40]), True, branch='strict-pd')
+        # … also the zero matrix (its default tolerance is 0), a rank-one matrix and the block matrix in tiny units
+        sing_all = [('block', sing), ('zero', np.zeros((d, d))), ('rank-one', np.outer(np.arange(1.0, d + 1), np.arange(1.0, d + 1))),
+                    ('block-tiny-units', sing * 2.0 ** -40)]
+        for stag, sing in sing_all:
+          for nm, mk in [('ITML', lambda: ITML(prior=sing).fit(pairs, yyd)), ('LSML', lambda: LSML(prior=sing).fit(quads)),
+                         ('SDML', lambda: SDML(prior=sing, balance_param=1e-5).fit(pairs, yyd))]:
+            R.case(('c20-strict', nm, stag, sing.tobytes().hex()[:40]), True, branch=f'strict-pd-{stag}')
             try:
                 with warnings.catch_warnings():
                     warnings.simplefilter('ignore')
@@ -261,7 +266,8 @@ def run(R, tier, seed, driver_ok):
                 pass
             except Exception as e:
                 R.violation(f'init/strict-pd/{nm}-{type(e).__name__}', f'{nm} raised {type(e).__name__} for a singular prior', {'prior': sing})
-        bads = [('non-symmetric', S + np.triu(np.ones((d, d)), 1), ValueError), ('wrong-shape', np.eye(d + 1), ValueError),
+        bads = [('non-symmetric', S + np.triu(np.ones((d, d)), 1), ValueError), ('non-symmetric-tiny-units', (S + np.triu(np.ones((d, d)), 1)) * 2.0 ** -40, ValueError),
+                ('non-symmetric-large-units', (S + np.triu(np.ones((d, d)), 1)) * 2.0 ** 40, ValueError), ('wrong-shape', np.eye(d + 1), ValueError),
                 ('indefinite', S - (np.linalg.eigvalsh(S).max() + 1) * np.outer(v, v), NonPSDError), ('bad-string', 'nonsense', ValueError)]
         for tag, val, exc in bads:
             for nm, mk in [('ITML', lambda: ITML(prior=val).fit(pairs, yyd)), ('MMC', lambda: MMC(init=val, max_iter=2).fit(pairs, yyd)),
